@@ -42,10 +42,11 @@ type Gen struct {
 	setup   []Op
 	inBlock bool
 	Malformed int // percent
+	seed0     uint64
 }
 
 func NewGen(w *World, seed uint64, profile string) *Gen {
-	g := &Gen{W: w, R: NewRng(seed), Profile: profile, Malformed: 20}
+	g := &Gen{W: w, R: NewRng(seed), Profile: profile, Malformed: 20, seed0: seed}
 	n := 3 + g.R.Intn(4)
 	for i := 1; i <= n; i++ {
 		g.Nodes = append(g.Nodes, i)
@@ -203,13 +204,16 @@ func (g *Gen) advance() Op {
 	if g.Profile == "lifecycle" {
 		jump = 85
 	}
+	if g.Profile == "timeouts" {
+		jump = 92
+	}
 	switch {
 	case ns != 0 && ns < 1<<40 && g.R.Chance(jump):
 		to = ns - int64(g.R.Intn(2))
 		if to <= h {
 			to = ns
 		}
-	case g.R.Chance(10) && g.Profile != "lifecycle":
+	case g.R.Chance(10) && g.Profile != "lifecycle" && g.Profile != "timeouts":
 		to = h + 1000 + int64(g.R.Intn(3000))
 	default:
 		to = h + 1 + int64(g.R.Intn(40))
@@ -469,6 +473,9 @@ func (g *Gen) tx() Op {
 	}
 	if g.Profile == "lifecycle" {
 		return g.lifecycleTx()
+	}
+	if g.Profile == "timeouts" {
+		return g.timeoutTx()
 	}
 	if g.Profile == "genesis" {
 		// a mix that populates every store: lifecycle, staking/super nodes (cursor), faults, dids
@@ -837,6 +844,73 @@ func (g *Gen) lifecycleTx() Op {
 
 // authTx: the adversary (node account 6, hot key 11, DID of account 11) replays every message
 // type against orders, shards and models of other parties.
+// timeoutTx: orders with short timeouts whose providers mostly stay silent, so that the timeout
+// handler re-assigns shards, retries, and gives up (cancel of a never-completed order, cut-down
+// and partial refund of a partly stored one).
+func (g *Gen) timeoutTx() Op {
+	li := g.live()
+	r := g.R
+	gw := g.Nodes[r.Intn(len(g.Nodes))]
+	// provider k of this history answers with probability silent[k] percent
+	answers := func(sp int) int {
+		if g.seed0%3 == 0 {
+			return 0 // everybody is silent: every order is eventually given up
+		}
+		return []int{0, 70, 0, 25, 100, 0, 40}[(sp+int(g.seed0%7))%7]
+	}
+	for _, s := range li.shards {
+		if s.Status == ordertypes.ShardWaiting {
+			sp := g.acctIndex(s.Sp)
+			if r.Chance(answers(sp)) && r.Chance(50) {
+				return Op{K: "complete", Creator: sp, Provider: sp + 1, OrderId: s.OrderId, Size: s.Size_}
+			}
+		}
+	}
+	open := 0
+	waitingOf := map[uint64]bool{}
+	for _, s := range li.shards {
+		if s.Status == ordertypes.ShardWaiting {
+			waitingOf[s.OrderId] = true
+		}
+	}
+	for _, o := range li.orders {
+		if o.Status != ordertypes.OrderCompleted || waitingOf[o.Id] {
+			open++
+		}
+	}
+	if open < 2 || (open < 4 && r.Chance(6)) {
+		owner := g.Owners[r.Intn(len(g.Owners))]
+		d := g.newDataId()
+		g.Datas = append(g.Datas, d)
+		to := int32(4 + r.Intn(12))
+		dur := []uint64{3600, 100000, 7200, 3700}[r.Intn(4)]
+		return Op{K: "store", Creator: gw, Provider: gw + 1, Signer: owner + 1, Owner: owner + 1, Duration: dur,
+			Replica: int32(1 + r.Intn(3)), Timeout: to, Alias: fmt.Sprintf("alias%d", g.dataSeq), DataId: d, CommitId: d,
+			Size: uint64(1 + r.Intn(2_000_000)), Operation: 1}
+	}
+	switch c := r.Intn(100); {
+	case c < 25 && len(li.metas) > 0:
+		// an update of a stored model whose new order may time out as well
+		m := li.metas[r.Intn(len(li.metas))]
+		o := g.ownerIndexOfDid(m.Owner)
+		if m.Commit != "" && o >= 0 {
+			nc := g.newDataId()
+			return Op{K: "store", Creator: gw, Provider: gw + 1, Signer: o + 1, Owner: o + 1, Duration: 3600, Replica: int32(1 + r.Intn(2)),
+				Timeout: int32(8 + r.Intn(30)), Alias: m.Alias, DataId: m.DataId, CommitId: m.Commit + "|" + nc, Size: uint64(1 + r.Intn(100000)), Operation: uint32(1 + r.Intn(2))}
+		}
+		return g.smallTx(li)
+	case c < 35 && len(li.orders) > 0:
+		ord := li.orders[r.Intn(len(li.orders))]
+		cr := g.acctIndex(ord.Creator)
+		return Op{K: "cancel", Creator: cr, Provider: cr + 1, OrderId: ord.Id}
+	case c < 45:
+		n := g.Nodes[r.Intn(len(g.Nodes))]
+		return Op{K: "claim", Creator: n}
+	default:
+		return g.smallTx(li)
+	}
+}
+
 func (g *Gen) authTx() Op {
 	li := g.live()
 	r := g.R
